@@ -1,7 +1,8 @@
 use crate::runner::PropSpec;
 
+pub mod c04;
 pub mod c12;
 
 pub fn all() -> Vec<&'static PropSpec> {
-    vec![&c12::SPEC]
+    vec![&c04::SPEC, &c12::SPEC]
 }
